@@ -14,7 +14,7 @@ import struct as _struct
 import uuid as _uuid
 
 from .interp_base import *  # noqa: F401,F403
-from .interp_base import Limit, Raised, Run
+from .interp_base import Limit, Raised, Run, _ids
 from .interp_core import NONETYPE, is_concrete
 
 NATIVE_TYPES = (_dt.datetime, _dt.timedelta, _dt.tzinfo, _uuid.UUID)
@@ -509,7 +509,9 @@ class LibMixin:
             run.emit("alloc", s, self.site(node), args[0] if args else None)
             return s
         if n == "bytearray":
-            return ListV([], site=self.site(node))
+            init = args[0] if args else b""
+            ln = len(init) if isinstance(init, bytes) else (init if isinstance(init, int) else None)
+            return Sym(("bytearray", term_of(init), next(_ids)), "bytearray", len=ln, mutable=True)
         if c in LibClass.get("BaseException").mro or L("BaseException") in c.mro:
             return InstV(c, {"args": tuple(args)})
         if n == "enum.Enum":
